@@ -2,6 +2,7 @@ package main
 
 import (
 	"fmt"
+	"go/types"
 	"sort"
 	"strings"
 
@@ -31,10 +32,61 @@ func ruleU3(p *Prog) *RuleResult {
 		fns = append(fns, f)
 	}
 	sort.Slice(fns, func(i, j int) bool { return fname(fns[i]) < fname(fns[j]) })
+	// interfaces whose method signatures are dictated to their implementations: those of the repository
+	// and the few standard ones it implements
+	var ifaces []*types.Interface
+	for _, pkg := range p.Pkgs {
+		if pkg.Types == nil {
+			continue
+		}
+		sc := pkg.Types.Scope()
+		for _, n := range sc.Names() {
+			if tn, ok := sc.Lookup(n).(*types.TypeName); ok {
+				if it, ok := tn.Type().Underlying().(*types.Interface); ok && it.NumMethods() > 0 {
+					ifaces = append(ifaces, it)
+				}
+			}
+		}
+		for _, imp := range pkg.Types.Imports() {
+			switch imp.Path() {
+			case "io", "sort", "container/heap", "encoding", "fmt":
+				isc := imp.Scope()
+				for _, n := range isc.Names() {
+					if tn, ok := isc.Lookup(n).(*types.TypeName); ok && tn.Exported() {
+						if it, ok := tn.Type().Underlying().(*types.Interface); ok && it.NumMethods() > 0 {
+							ifaces = append(ifaces, it)
+						}
+					}
+				}
+			}
+		}
+	}
+	dictated := func(f *ssa.Function) bool {
+		recv := f.Signature.Recv()
+		if recv == nil {
+			return false
+		}
+		for _, it := range ifaces {
+			has := false
+			for i := 0; i < it.NumMethods(); i++ {
+				if it.Method(i).Name() == f.Name() {
+					has = true
+				}
+			}
+			if has && (types.Implements(recv.Type(), it) || types.Implements(types.NewPointer(recv.Type()), it)) {
+				return true
+			}
+		}
+		return false
+	}
 	for _, f := range fns {
+		isDictated := dictated(f)
 		for k, prm := range f.Params {
 			if prm.Name() == "_" || prm.Name() == "" {
 				continue
+			}
+			if isDictated {
+				continue // the signature is fixed by an interface; an implementation may have no use for a parameter
 			}
 			if k == 0 && f.Signature.Recv() != nil {
 				continue // receivers of marker methods are legitimately unused
